@@ -234,6 +234,7 @@ func run6(t *testing.T, sc scenario6) (o out6) {
 }
 
 func judge6(r *mon.Rec, t *testing.T, sc scenario6) {
+	r.Current(sc)
 	r.Eval(1)
 	var o out6
 	pan, val, st := mon.Guard(func() { o = run6(t, sc) })
